@@ -366,8 +366,10 @@ PTY_SESSIONS = [
 ]
 
 
-def pty_session(cli, home, lines, wait_first=5.0, wait=2.0):
-    """types the lines into `numbat` running under a pseudo terminal (script -qc), returns the cleaned transcript"""
+def pty_session(cli, home, lines, prompt_timeout=90.0):
+    """types the lines into `numbat` running under a pseudo terminal (script -qc) and returns the cleaned
+    transcript.  Each line is sent only after a fresh prompt has been printed (rustyline discards input typed
+    before it switches the terminal to raw mode, so fixed pauses lose lines on a loaded machine)."""
     import shlex
     import subprocess
     import threading
@@ -377,29 +379,59 @@ def pty_session(cli, home, lines, wait_first=5.0, wait=2.0):
                 "TERM": "xterm"})
     cmd = "%s --no-config --no-init --intro-banner off --color never" % shlex.quote(cli)
     p = subprocess.Popen(["script", "-qc", cmd, "/dev/null"], stdin=subprocess.PIPE, stdout=subprocess.PIPE,
-                         stderr=subprocess.STDOUT, env=env)
+                         stderr=subprocess.STDOUT, env=env, bufsize=0)
+    buf = bytearray()
+    lock = threading.Lock()
+
+    def reader():
+        while True:
+            chunk = p.stdout.read(4096)
+            if not chunk:
+                break
+            with lock:
+                buf.extend(chunk)
+    rt = threading.Thread(target=reader, daemon=True)
+    rt.start()
+
+    def prompts():
+        with lock:
+            return bytes(buf).count(b">>> ")
 
     def feed():
         try:
-            time.sleep(wait_first)
+            sent = 0
             for l in lines + ['print("MARK-END")', "quit"]:
+                t0 = time.time()
+                while prompts() <= sent and time.time() - t0 < prompt_timeout:
+                    time.sleep(0.1)
+                time.sleep(0.3)
                 p.stdin.write((l + "\n").encode("utf-8"))
                 p.stdin.flush()
-                time.sleep(wait)
+                sent += 1
+            time.sleep(1.0)
             p.stdin.close()
         except (BrokenPipeError, OSError):
             pass
     th = threading.Thread(target=feed, daemon=True)
     th.start()
-    # a watchdog instead of communicate(): communicate() would close stdin at once
-    killer = threading.Timer(wait_first + wait * (len(lines) + 4) + 60, p.kill)
+    killer = threading.Timer(prompt_timeout * 2 + 30 * (len(lines) + 2), p.kill)
     killer.start()
-    out = p.stdout.read()
     p.wait()
     killer.cancel()
-    txt = out.decode("utf-8", "replace")
+    rt.join(timeout=5)
+    with lock:
+        txt = bytes(buf).decode("utf-8", "replace")
     txt = re.sub(r"\x1b\[[0-9;?]*[a-zA-Z]", "", txt).replace("\r", "")
     return txt
+
+
+def pty_conclusive(txt, lines):
+    """every typed line was echoed after its own prompt (as a whole line) and the end marker was printed"""
+    echoed = re.findall(r"^>>> (.*)$", txt, re.M)
+    want = list(lines) + ['print("MARK-END")']
+    it = iter(echoed)
+    ok = all(any(e.strip() == w.strip() for e in it) for w in want)      # in order
+    return ok and txt.count("MARK-END") >= 2
 
 
 def pty_regression(chk):
@@ -421,11 +453,14 @@ def pty_regression(chk):
         outs = list(ex.map(lambda sess: pty_session(cli, home, sess[0]), PTY_SESSIONS))
     bad, conclusive = [], 0
     for (lines, want, what), txt in zip(PTY_SESSIONS, outs):
-        ok_transcript = all((">>> " + l) in txt for l in lines) and txt.count("MARK-END") >= 2
-        if not ok_transcript:
+        if not pty_conclusive(txt, lines):
             continue
         conclusive += 1
-        tail = txt.split(">>> " + lines[-1], 1)[1].split(">>> ", 1)[0]
+        parts = txt.rsplit(">>> " + lines[-1] + "\n", 1)
+        if len(parts) < 2:
+            conclusive -= 1
+            continue
+        tail = parts[1].split(">>> ", 1)[0]
         if want not in tail or "nknown identifier" in tail:
             bad.append({"typed": lines, "what": what, "answer_to_last_line": tail.strip()[:600]})
     return bad, conclusive, len(PTY_SESSIONS)
